@@ -585,7 +585,7 @@ func TestC06(t *testing.T) {
 	s.Assume = []string{"secrets are searched in their Basic (base64) form and the harness terminates TLS at the scripted origin", "simnet owns every connection"}
 	s.Add(explore.Scenario{Name: "bounded", Remote: true, Tiers: []string{"quick"}, MaxDev: map[string]int{"quick": 2},
 		Run: func(x *explore.X) { world.Run(t, x, func() { scenario(x, false) }) }})
-	s.Add(explore.Scenario{Name: "product", Remote: true, MaxDev: map[string]int{"quick": 0, "thorough": -1},
+	s.Add(explore.Scenario{Name: "product", Remote: true, MaxDev: map[string]int{"quick": 1, "thorough": -1},
 		Run: func(x *explore.X) { world.Run(t, x, func() { scenario(x, true) }) }})
 	s.Add(explore.Scenario{Name: "concurrent-lookups", Remote: true, MaxDev: map[string]int{"quick": 2, "thorough": 3},
 		Run: func(x *explore.X) {
